@@ -51,6 +51,7 @@ def run(res, tier, seed, replay):
         "MACRO @errors\n(\n  404 any\n)\n",
         "GET /cats\n  200 @pet\n  PASTE @errors\n",
         "URL /cats/{n}\n  Path\n    {\n      \"n\": 1\n    }\n  GET\n    200 [@pet]\n",
+        "GET /pet/store/{storeId}\n  200 any\n",
     ]
     fresh_blocks = [
         ("method with Path given as a body that refers to the type", "GET /zebras/{id}\n  Path\n    @petKey\n  200 any\n", ["http GET /zebras/{id}"], ["@zebras"]),
@@ -58,6 +59,9 @@ def run(res, tier, seed, replay):
         ("method using @flags as query and headers", "POST /zebras\n  Query\n    @flags\n  Request\n    Headers\n      @flags\n    Body @pet\n  200 @petKey\n",
          ["http POST /zebras"], ["@zebras"]),
         ("URL block pasting @errors", "URL /zebras\n  GET\n    200 @pet\n    PASTE @errors\n  DELETE\n    PASTE @errors\n    204 any\n", ["http GET /zebras", "http DELETE /zebras"], ["@zebras"]),
+        ("method whose path segments spell the prefix of an existing path", "GET /petstore/{code}\n  200 any\n", ["http GET /petstore/{code}"], ["@petstore"]),
+        ("method whose first segment extends an existing first segment", "GET /catsitters\n  200 any\n", ["http GET /catsitters"], ["@catsitters"]),
+        ("method whose first segment is a prefix of an existing one", "DELETE /cat\n  204 any\n", ["http DELETE /cat"], ["@cat"]),
         ("type inheriting from @flags and @petKey", "TYPE @fresh\n  { // {allOf: [\"@flags\", \"@petKey\"]}\n    \"z\": 1\n  }\n", [], []),
         ("JSON-RPC method using the types", "URL /zebras\n  Protocol json-rpc-2.0\n  Method feed\n    Params\n      @flags\n    Result\n      [@pet]\n", ["json-rpc-2.0 feed /zebras"], ["@zebras"]),
     ]
